@@ -118,6 +118,9 @@ Lemma blocks_strip : forall bname c,
   flat_map (fun t => match assoc_get bname (tpl_blocks t) with Some w => [w] | None => [] end) (map strip c).
 Proof. intros bname c. induction c as [|t c IH]; [reflexivity|]. cbn [flat_map map]. rewrite IH. reflexivity. Qed.
 
+Lemma owner_strip : forall owner c,
+  existsb (fun t => tpl_id t =? owner) c = existsb (fun t => tpl_id t =? owner) (map strip c).
+Proof. intros owner c. induction c as [|t c IH]; [reflexivity|]. cbn [existsb map]. rewrite IH. reflexivity. Qed.
 Section ChainObs.
 Variables x y : frame.
 Hypothesis H : Tf x = Tf y.
@@ -128,6 +131,9 @@ Proof.
   change (tpl_id (strip (last (f_chain x) dflt_tpl)) = tpl_id (strip (last (f_chain y) dflt_tpl))).
   rewrite !strip_last, Hc. reflexivity.
 Qed.
+Lemma Tf_chain_owner : forall owner,
+  existsb (fun t => tpl_id t =? owner) (f_chain x) = existsb (fun t => tpl_id t =? owner) (f_chain y).
+Proof. intros owner. rewrite (owner_strip owner (f_chain x)), (owner_strip owner (f_chain y)), Hc. reflexivity. Qed.
 Lemma Tf_last_lstrip : tpl_lstrip (last (f_chain x) (Tpl 0 [] true [] [] [] None false false)) =
                        tpl_lstrip (last (f_chain y) (Tpl 0 [] true [] [] [] None false false)).
 Proof.
@@ -200,6 +206,7 @@ Ltac b2a :=
       first [ progress rewrite <- (Tf_priv x y H) | progress rewrite <- (Tf_pub x y H)
             | progress rewrite <- (Tf_auto x y H) | progress rewrite <- (Tf_depth x y H)
             | progress rewrite <- (Tf_exec x y H) | progress rewrite <- (Tf_last_id x y H)
+            | progress rewrite <- (Tf_chain_owner x y H)
             | progress rewrite <- (Tf_last_lstrip x y H) | progress rewrite <- (Tf_last_trim x y H)
             | progress rewrite <- (Tf_hd_is_string x y H) | progress rewrite <- (Tf_hd_name x y H)
             | progress rewrite <- (Tf_blocks x y H) ]
